@@ -20,14 +20,22 @@ import (
 	"testing"
 
 	"github.com/tendermint/tendermint/crypto/merkle"
+	"github.com/tendermint/tendermint/crypto/tmhash"
 )
 
 type c10Proof struct {
 	Total int64    `json:"total"`
 	Big   int64    `json:"big"` // the stated leaf count is Total + Big<<32
 	Index int64    `json:"index"`
+	Ibig  int64    `json:"ibig"` // the stated index is Index + Ibig<<32
 	Leaf  string   `json:"leaf"`
 	Aunts []string `json:"aunts"`
+}
+
+// the header a part set is created from (nil: the genuine header of the data)
+type c10Hdr struct {
+	Total int64  `json:"total"`
+	Root  string `json:"root"`
 }
 
 type c10Case struct {
@@ -46,6 +54,7 @@ type c10Part struct {
 
 type c10Sched struct {
 	Data  []string  `json:"data"`
+	Hdr   *c10Hdr   `json:"hdr"`
 	Parts []c10Part `json:"parts"`
 }
 
@@ -148,7 +157,46 @@ func (nm *c10Names) hash(term string) ([]byte, error) {
 	if h, ok := nm.hashBytes[term]; ok {
 		return h, nil
 	}
+	// an inner node over two known terms that is not a node of the registered tree (crafted roots): RFC-6962
+	// inner hash, sha256(0x01 || left || right)
+	if len(term) > 3 && term[:2] == "I(" && term[len(term)-1] == ')' {
+		body, depth := term[2:len(term)-1], 0
+		for i := 0; i < len(body); i++ {
+			switch body[i] {
+			case '(':
+				depth++
+			case ')':
+				depth--
+			case ',':
+				if depth == 0 {
+					l, err := nm.hash(body[:i])
+					if err != nil {
+						return nil, err
+					}
+					r, err := nm.hash(body[i+1:])
+					if err != nil {
+						return nil, err
+					}
+					h := tmhash.Sum(append(append([]byte{1}, l...), r...))
+					nm.reg(term, h)
+					return h, nil
+				}
+			}
+		}
+	}
 	return nil, fmt.Errorf("no concrete hash for term %q", term)
+}
+
+// the inner-hash construction used for crafted roots is the one of the real tree code
+func c10CheckInner(t *testing.T) {
+	a, b := []byte("left item"), []byte("right item")
+	nm := newC10Names(1, 3)
+	nm.reg("L(a)", merkle.HashFromByteSlices([][]byte{a}))
+	nm.reg("L(b)", merkle.HashFromByteSlices([][]byte{b}))
+	h, err := nm.hash("I(L(a),L(b))")
+	if err != nil || !bytes.Equal(h, merkle.HashFromByteSlices([][]byte{a, b})) {
+		t.Fatalf("harness inner hash differs from crypto/merkle: %v", err)
+	}
 }
 
 func (nm *c10Names) nameOfHash(h []byte) string {
@@ -170,7 +218,7 @@ func (nm *c10Names) concProof(p c10Proof) (*merkle.Proof, error) {
 	if err != nil {
 		return nil, err
 	}
-	out := &merkle.Proof{Total: p.Total + p.Big<<32, Index: p.Index, LeafHash: lh, Aunts: [][]byte{}}
+	out := &merkle.Proof{Total: p.Total + p.Big<<32, Index: p.Index + p.Ibig<<32, LeafHash: lh, Aunts: [][]byte{}}
 	for _, a := range p.Aunts {
 		h, err := nm.hash(a)
 		if err != nil {
@@ -185,6 +233,9 @@ func (nm *c10Names) absProof(p *merkle.Proof) c10Proof {
 	out := c10Proof{Total: p.Total, Index: p.Index, Leaf: nm.nameOfHash(p.LeafHash), Aunts: []string{}}
 	if p.Total >= 1<<32 {
 		out.Total, out.Big = p.Total&(1<<32-1), p.Total>>32
+	}
+	if p.Index >= 1<<32 {
+		out.Index, out.Ibig = p.Index&(1<<32-1), p.Index>>32
 	}
 	for _, a := range p.Aunts {
 		out.Aunts = append(out.Aunts, nm.nameOfHash(a))
@@ -232,6 +283,7 @@ func TestVerifC10(t *testing.T) {
 		t.Fatal(err)
 	}
 	sizes := c10Sizes(seed)
+	c10CheckInner(t)
 
 	// ---------------- proof cases
 	wc := newC10Writer(outDir + "/cases.ndjson")
@@ -296,8 +348,16 @@ func c10Project(nm *c10Names, ps *PartSet, orig []byte) map[string]interface{} {
 		}
 	}
 	post := map[string]interface{}{"slots": slots, "count": int(ps.Count()), "complete": ps.IsComplete(),
-		"bytesize": int(ps.ByteSize()), "reasm": "n/a"}
+		"bytesize": int(ps.ByteSize()), "reasm": "n/a", "root": "n/a"}
 	if ps.IsComplete() && ps.Total() > 0 {
+		// the Merkle root the real tree code computes over the admitted parts (the set's own total)
+		leaves := make([][]byte, ps.Total())
+		for i := range leaves {
+			if p := ps.GetPart(i); p != nil {
+				leaves[i] = p.Bytes
+			}
+		}
+		post["root"] = nm.nameOfHash(merkle.HashFromByteSlices(leaves))
 		// a panic of the product while reassembling is an observation ("panic"), not a failure of the harness
 		func() {
 			defer func() {
@@ -373,9 +433,19 @@ func c10RunSched(t *testing.T, w *c10Writer, run int, seed int64, size int, s c1
 	if int(src.Total()) != len(s.Data) {
 		t.Fatalf("run %d: part count %d != %d", run, src.Total(), len(s.Data))
 	}
-	ps := NewPartSetFromHeader(src.Header())
+	header := src.Header()
+	hdr := c10Hdr{Total: int64(src.Total()), Root: nm.nameOfHash(src.Hash())}
+	if s.Hdr != nil {
+		h, err := nm.hash(s.Hdr.Root)
+		if err != nil {
+			t.Fatalf("run %d: %v", run, err)
+		}
+		hdr = *s.Hdr
+		header = PartSetHeader{Total: uint32(s.Hdr.Total), Hash: h}
+	}
+	ps := NewPartSetFromHeader(header)
 	w.emit(map[string]interface{}{"ev": "Reset", "run": run, "data": s.Data, "size": size,
-		"root": nm.nameOfHash(src.Hash()), "total": int(src.Total())})
+		"root": nm.nameOfHash(src.Hash()), "total": int(src.Total()), "hdr": hdr})
 	for _, ap := range s.Parts {
 		pr, err := nm.concProof(ap.Proof)
 		if err != nil {
@@ -448,7 +518,7 @@ func c10RunConcurrent(t *testing.T, w *c10Writer, run int, rng *rand.Rand) {
 		defer func() {
 			if r := recover(); r != nil {
 				p = map[string]interface{}{"slots": []string{}, "count": int(ps.Count()), "complete": ps.IsComplete(),
-					"bytesize": int(ps.ByteSize()), "reasm": "panic"}
+					"bytesize": int(ps.ByteSize()), "reasm": "panic", "root": "n/a"}
 				slots := make([]string, ps.Total())
 				for i := range slots {
 					slots[i] = "nil"
@@ -508,9 +578,24 @@ func c10RunRandom(t *testing.T, w *c10Writer, run int, rng *rand.Rand) {
 	nm.itemBytes["zz"] = foreign
 	nm.itemName[hex.EncodeToString(foreign)] = "zz"
 	nm.registerTree(names)
-	ps := NewPartSetFromHeader(src.Header())
+	// one run in four: the part set is created from a crafted header whose root wraps the genuine root
+	header := src.Header()
+	hdr := c10Hdr{Total: int64(n), Root: nm.nameOfHash(src.Hash())}
+	extra, _ := nm.hash("L(zz)")
+	if rng.Intn(4) == 0 {
+		hdr.Root = "I(L(zz)," + hdr.Root + ")"
+		if rng.Intn(3) == 0 {
+			hdr.Root = "I(" + nm.nameOfHash(src.Hash()) + ",L(zz))"
+		}
+		h, err := nm.hash(hdr.Root)
+		if err != nil {
+			t.Fatalf("run %d: %v", run, err)
+		}
+		header = PartSetHeader{Total: uint32(n), Hash: h}
+	}
+	ps := NewPartSetFromHeader(header)
 	w.emit(map[string]interface{}{"ev": "Reset", "run": run, "data": names, "size": size,
-		"root": nm.nameOfHash(src.Hash()), "total": n})
+		"root": nm.nameOfHash(src.Hash()), "total": n, "hdr": hdr})
 	steps := n*2 + rng.Intn(6)
 	for k := 0; k < steps; k++ {
 		i := rng.Intn(n)
@@ -518,7 +603,12 @@ func c10RunRandom(t *testing.T, w *c10Writer, run int, rng *rand.Rand) {
 		g := src.GetPart(i)
 		part := &Part{Index: g.Index, Bytes: g.Bytes, Proof: g.Proof}
 		part.Proof.Aunts = append([][]byte{}, g.Proof.Aunts...)
-		switch rng.Intn(9) {
+		switch rng.Intn(10) {
+		case 9: // index and total shifted by the same multiple of 2^32, one more aunt at the root end
+			k := int64(1 + rng.Intn(2))
+			part.Proof.Index += k << 32
+			part.Proof.Total += k << 32
+			part.Proof.Aunts = append(part.Proof.Aunts, extra)
 		case 0: // whole transplant: bytes+proof of j presented at index i
 			o := src.GetPart(j)
 			part.Bytes, part.Proof = o.Bytes, o.Proof
